@@ -48,3 +48,45 @@ func FuzzC05(f *testing.F) {
 		}
 	})
 }
+
+// FuzzC16 / FuzzC12 / FuzzC11: the fuzzer only steers by coverage; the corpus it keeps is replayed as ordinary
+// trace events and judged by TLC (Sync is specified on every byte stream; EBP / PES inputs are judged when the
+// specification's own parser accepts them as well-formed).
+func FuzzC16(f *testing.F) {
+	f.Add(uint8(0), []byte{0x47, 0x01, 0x00, 0x10}, uint16(0))
+	f.Add(uint8(1), append(bytes.Repeat([]byte{0x46}, 190), 0x47, 0x01, 0x00, 0x10, 1, 2, 3), uint16(0))
+	f.Add(uint8(2), []byte{0x47, 0x00, 0x05, 0x10, 0x47, 0x1f, 0xff, 0x00, 0x47, 0x00, 0x20, 0x30}, uint16(0))
+	f.Fuzz(func(t *testing.T, sel uint8, in []byte, arg uint16) {
+		if len(in) > 1500 {
+			in = in[:1500]
+		}
+		e := Ev{"op": "sync", "stream": B(in), "reader": c16Readers[int(sel)%len(c16Readers)]}
+		c16{}.Exec([]Ev{e})
+	})
+}
+
+func FuzzC12(f *testing.F) {
+	f.Add(uint8(0), []byte{0xa9, 0x02, 0xff, 0x1c}, uint16(0))
+	f.Add(uint8(0), []byte{0xdf, 0x06, 'E', 'B', 'P', '0', 0xff, 0x9c}, uint16(0))
+	f.Add(uint8(0), []byte{0xa9, 0x0b, 0x0e, 0x1d, 0x80, 0, 0, 0, 0x80, 0, 0, 0, 0xee}, uint16(0))
+	f.Fuzz(func(t *testing.T, sel uint8, in []byte, arg uint16) {
+		if len(in) > 300 {
+			in = in[:300]
+		}
+		e := Ev{"op": "decode", "bytes": B(in)}
+		c12{}.Exec([]Ev{e})
+	})
+}
+
+func FuzzC11(f *testing.F) {
+	f.Add(uint8(0), []byte{0, 0, 1, 0xe0, 0, 0, 0x84, 0xc0, 0x0a, 0x31, 0, 1, 0, 1, 0x11, 0, 1, 0, 1, 9, 9}, uint16(0))
+	f.Add(uint8(0), []byte{0, 0, 1, 0xbe, 0, 4, 1, 2, 3, 4}, uint16(0))
+	f.Add(uint8(0), []byte{0, 0, 1, 0xc0, 0, 0, 0x80, 0x80, 0x05, 0x21, 0, 1, 0, 1}, uint16(0))
+	f.Fuzz(func(t *testing.T, sel uint8, in []byte, arg uint16) {
+		if len(in) > 400 {
+			in = in[:400]
+		}
+		e := Ev{"op": "pes", "bytes": B(in)}
+		c11{}.Exec([]Ev{e})
+	})
+}
